@@ -8,7 +8,7 @@
 From Coq Require Import ZArith List Bool.
 From PTK Require Import Lib.Sx Lib.Py Lib.C03_Regex Gen.C03_AnsiSequences Gen.C03_Regexes
   Model.C03_Vt100Parser Model.C03_Vt100Input Model.C03_Cache Proofs.C03_Regex Proofs.C03_Cache
-  Proofs.C03_Table Proofs.C03_Process Proofs.C03_Feed Proofs.C03_Lossless Proofs.C03_Main Proofs.C03_Input Proofs.C03_Shift.
+  Proofs.C03_Table Proofs.C03_Process Proofs.C03_Feed Proofs.C03_Lossless Proofs.C03_Main Proofs.C03_Input Proofs.C03_Shift Proofs.C03_Decode Proofs.C03_Depth.
 Import ListNotations.
 Open Scope Z_scope.
 
@@ -81,6 +81,57 @@ Theorem C03_table_paste_start : forall k ks,
   k = start_mark /\ ks = [key_BracketedPaste] /\ flush (feed k init) = mkst [] true [] [] false.
 Proof. exact table_paste_start. Qed.
 Print Assumptions C03_table_paste_start.
+
+(* Every emitted key press carries its own sequence: after any schedule the
+   output is a concatenation of groups, each group being all keys of
+   get_match d with d as data of the first and "" for the others, or one raw
+   character carrying itself, or one paste event.  (C03_lossless constrains only
+   the concatenated data; this ties every key to its data.) *)
+Theorem C03_emitted_keys_match_data : forall ops, wf_out (out (run_ops ops init)).
+Proof. exact emitted_keys_match_data. Qed.
+Print Assumptions C03_emitted_keys_match_data.
+
+(* A sequence whose proper prefixes can all still grow, which itself cannot,
+   and which has a match decodes to exactly that match. *)
+Theorem C03_sequence_decodes : forall p ks,
+  p <> [] ->
+  (forall j, (1 <= j < length p)%nat -> is_prefix_longer (firstn j p) = true) ->
+  is_prefix_longer p = false -> get_match p = Some ks -> mem_Z key_BracketedPaste ks = false ->
+  feed p init = mkst [] false [] (rev (expected_events p ks)) false /\
+  flush (feed p init) = mkst [] false [] (rev (expected_events p ks)) false.
+Proof. exact sequence_decodes. Qed.
+Print Assumptions C03_sequence_decodes.
+
+(* EVERY cursor-position report (every string of _cpr_response_re, Unicode
+   digits and any length included) decodes to one CPRResponse key press
+   carrying it, nothing left; likewise every mouse report. *)
+Theorem C03_cpr_decodes : forall p,
+  cpr_re p = true -> flush (feed p init) = mkst [] false [] [(KKey key_CPRResponse, p)] false.
+Proof. exact cpr_decodes. Qed.
+Print Assumptions C03_cpr_decodes.
+
+Theorem C03_mouse_decodes : forall p,
+  mouse_re p = true -> flush (feed p init) = mkst [] false [] [(KKey key_Vt100MouseEvent, p)] false.
+Proof. exact mouse_decodes. Qed.
+Print Assumptions C03_mouse_decodes.
+
+(* feed() as it stood before 6a14a13 called itself twice per paste
+   ([feed_fuel n] = at most n nested calls, [oof] = stack exhausted): 600 empty
+   pastes in one read exceeded 1000 nested calls (CPython's default limit) after
+   500 paste events - finding C03-F2, repaired in /repo by 6a14a13 (a loop).
+   The model's [feed] (enough fuel, C03_fuel_suffices) is that loop: all 600
+   arrive, and the schedule theorems need no assumption on the length of a read. *)
+Theorem C03_feed_recursion_depth_pinned_refuted :
+  let st := feed_fuel 1000 (empty_pastes 600) init in
+  oof st = true /\ length (rout st) = 500%nat.
+Proof. exact depth_1000_exceeded. Qed.
+Print Assumptions C03_feed_recursion_depth_pinned_refuted.
+
+Theorem C03_feed_loop_delivers_all :
+  let st := feed (empty_pastes 600) init in
+  oof st = false /\ length (rout st) = 600%nat /\ in_paste st = false /\ prefix st = [].
+Proof. exact loop_delivers_all. Qed.
+Print Assumptions C03_feed_loop_delivers_all.
 
 (* Longest match: when the pending string has no exact match, the first key
    press emitted by the shift loop carries the longest prefix of it that has a
